@@ -129,8 +129,7 @@ def run_task(task):
         return abort.run_task(task)
     if t in ('s4', 's4enum'):
         from scenarios import framing
-        from harness import isolate
-        return isolate.call(framing.run_task, task, timeout=500.0)
+        return framing.run_task(task)
     if t == 'vanish':
         from scenarios import abort
         return abort.run_vanish(task)
